@@ -77,6 +77,8 @@ def check(chk, repo, tier):
     from ..lexlaws import law_stateless  # noqa: PLC0415
     if not law_stateless(chk, lp, "C03.lexer-stateless", LF):
         return
+    from ..lexlaws import law_left_to_right  # noqa: PLC0415
+    law_left_to_right(chk, lp, "C03.lexer-left-to-right", LF)
 
     # ---- lexer: kind/value table ------------------------------------------------
     for k in kinds:
